@@ -2,10 +2,13 @@
 mod c01;
 mod c02;
 mod c03;
+mod c04;
 mod c05;
 mod c06;
+mod c15;
 mod c16;
 mod c19;
+mod c20;
 mod harness;
 mod pure;
 
@@ -82,9 +85,12 @@ fn main() {
         "C02" => c02::run(args),
         "C03" => c03::run(args),
         "C19" => c19::run(args),
+        "C20" => c20::run(args),
         "C05" => c05::run(args),
+        "C04" => c04::run(args),
         "C06" => c06::run(args),
         "C16" => c16::run(args),
+        "C15" => c15::run(args),
         "C23" => pure::c23(args),
         "C25" => pure::c25(args),
         p => vcommon::machinery_fail(&format!("dbx does not serve property {p}")),
